@@ -488,8 +488,11 @@ def kill_runs(ctx, drv, bl, workers=16):
         c = Case(c0.name, c0.op, c0.user, c0.had, c0.admin, c0.aux, c0.pw, c0.empty_dir)
         call = b["run"]["parsed"]["region"][idx]
         inj = "%s:error=EINTR:signal=SIGKILL:when=%d" % (call["name"], call["ordinal"])
-        r = drv.run(c, "kill-%s-%d" % (c.name, k), inject=inj)
-        p = r["parsed"]
+        for attempt in range(3):       # an injection that did not fire is retried, never judged
+            r = drv.run(c, "kill-%s-%d" % (c.name, k), inject=inj)
+            p = r["parsed"]
+            if not (p is None or p["ended"] or r["res"] is not None):
+                break
         if p is None or p["ended"] or r["res"] is not None:
             return ("inconclusive", c, k, "driver survived the kill injection %s" % inj)
         reg = p["region"]
@@ -546,6 +549,68 @@ def kill_runs(ctx, drv, bl, workers=16):
             ctx.violation("C08", "%s:%s:before-%s" % (key, c.name, info["call"]), d)
         ctx.sample({"kill": c.name, "before_call": info["call"], "k": k, "real_view": v, "recovery": rec}) if k == 3 else None
     return per_case, nkill, len(jobs)
+
+
+def reader_runs(ctx, drv, bl, workers=8):
+    """Concurrent readers in other processes: the writer is stopped for 300 ms on entry to each of its mutating
+    system calls (strace delay_enter) while fresh reader processes authenticate, check and project the directory."""
+    jobs = []
+    for b in bl:
+        if b["case"].op not in ("add", "update", "init", "setadmin"):
+            continue
+        reg = b["run"]["parsed"]["region"]
+        for k, idx in enumerate(mutating_indices(reg)):
+            jobs.append((b, k, idx))
+
+    def one(job):
+        b, k, idx = job
+        c0 = b["case"]
+        c = Case(c0.name, c0.op, c0.user, c0.had, c0.admin, c0.aux, c0.pw, c0.empty_dir)
+        call = b["run"]["parsed"]["region"][idx]
+        c.materialise(os.path.join(drv.work, "reader-%s-%d" % (c.name, k)))
+        tr = os.path.join(c.root, "strace.txt")
+        cmd = ["strace", "-f", "-o", tr, "-e", "trace=" + call["name"], "-e",
+               "inject=%s:delay_enter=300000:when=%d" % (call["name"], call["ordinal"])] + c.argv(drv.drv)
+        w = subprocess.Popen(cmd, stdout=subprocess.PIPE, stderr=subprocess.PIPE)
+        import time as _t
+        _t.sleep(0.09)
+        v1 = view_of(c, drv.pi(c.base), c.old)
+        rec = {}
+        for tag in ("old", "new", "third"):
+            pf = os.path.join(c.root, "rpw-" + tag)
+            open(pf, "wb").write(PWS[tag])
+            a = subprocess.run([drv.drv, "-cfg", os.path.join(c.root, "store.yaml"), "-op", "auth", "-user", c.user, "-pwfile", pf],
+                               stdout=subprocess.PIPE, text=True)
+            try:
+                rec[tag] = json.loads(a.stdout.strip().splitlines()[-1])["ok"]
+            except Exception:
+                rec[tag] = "crash rc=%d" % a.returncode
+        v2 = view_of(c, drv.pi(c.base), c.old)
+        w.wait(timeout=30)
+        shutil.rmtree(c.root, ignore_errors=True)
+        return c, k, call["name"], v1, v2, rec
+
+    with concurrent.futures.ThreadPoolExecutor(max_workers=workers) as ex:
+        results = list(ex.map(one, jobs))
+    n = 0
+    for c, k, callname, v1, v2, rec in results:
+        if v1 != v2:
+            ctx.notes.append("reader run %s#%d discarded: the writer moved on during the observation" % (c.name, k))
+            continue
+        n += 1
+        present = [x for x in (v1["F"], v1["G"]) if x not in ("absent", "empty")]
+        key = None
+        if "torn" in present:
+            key, d = "reader:torn-record-visible", "a concurrent reader sees %s" % v1
+        elif rec["third"] is not False:
+            key, d = "reader:third-password", "%s" % rec
+        elif rec["old"] is not ("old" in present) or rec["new"] is not ("new" in present):
+            key, d = "reader:old-until-new", "directory view %s but a concurrent reader's logins say %s" % (v1, rec)
+        elif c.op == "update" and not present:
+            key, d = "reader:user-vanished-during-update", "view %s" % v1
+        if key:
+            ctx.violation("C08", "%s:%s:before-%s" % (key, c.name, callname), d)
+    return n, len(jobs)
 
 
 ERRNOS = ("ENOSPC", "EIO", "EACCES", "EMFILE")
